@@ -241,7 +241,7 @@ theorem lifecycle_step {b : Book} (h : Inv b) (op : Op) (hv : ValidOp op) (hnf :
             simp [Book.placeOrder, he, hnew, Book.placeEntry, hm, Book.placeLimit]
           rw [heq] at hnf ⊢
           exact limit_flow_tableAdv hl _ (b.activate e) e _ he (Or.inl hnew) ⟨rfl, rfl, rfl, rfl⟩
-            (by simp [Book.activate]) (by simpa [Book.activate] using hnk.2) hnf
+            (by simp [Book.activate]) (by simpa [Book.activate] using hnk.2.1) hnf
       · have heq : b.placeOrder id = b := by simp [Book.placeOrder, he, hnew]
         rw [heq]; exact TableAdv.refl _
   have hcancel : ∀ id, TableAdv b.orders (b.cancelOrder id).orders := by
@@ -275,7 +275,7 @@ theorem lifecycle_step {b : Book} (h : Inv b) (op : Op) (hv : ValidOp op) (hnf :
               (priceKey e.key.side p) (by simpa using he) (Or.inr hact) ⟨rfl, rfl, rfl, rfl⟩ (by simpa using hact) (by simpa using hv) hnf
             simpa using this
           have hepos : 0 < e.order.vol := by
-            obtain ⟨e0, he0, _, _, _, _, hp, _⟩ := (h.side e.order.side).ent _ _ (h.act id e he hact)
+            obtain ⟨e0, he0, _, _, _, _, hp, _, _⟩ := (h.side e.order.side).ent _ _ (h.act id e he hact)
             rw [he] at he0; injection he0 with he0; subst he0; exact hp
           cases np with
           | none =>
@@ -318,7 +318,7 @@ theorem lifecycle_step {b : Book} (h : Inv b) (op : Op) (hv : ValidOp op) (hnf :
     · exact TableAdv.append _ _
   | place id => exact hplace b h id hnf
   | cap sd vol tr p =>
-    have hc := h.create sd vol tr p hv
+    have hc := h.create sd vol tr p hv.1 hv.2
     have hcr : TableAdv b.orders (b.createOrder sd vol tr p).1.orders := by
       simp only [Book.createOrder]
       split
@@ -333,12 +333,12 @@ theorem lifecycle_step {b : Book} (h : Inv b) (op : Op) (hv : ValidOp op) (hnf :
       exact hcr.trans (hplace _ hc id hnf)
     · exact hcr
   | cancel id => exact hcancel id
-  | modify id p v => exact hmodify id p v hv hnf
+  | modify id p v => exact hmodify id p v hv.1 hnf
   | ev e =>
     cases e with
     | new id => exact hplace b h id hnf
     | cancel id => exact hcancel id
-    | modify id p v => exact hmodify id p v hv hnf
+    | modify id p v => exact hmodify id p v hv.1 hnf
   | time t => exact TableAdv.refl _
   | trading on => cases on <;> exact TableAdv.refl _
   | resetVol => exact TableAdv.refl _
